@@ -16,7 +16,7 @@ VARIANTS = ["prepare[cp]+start[cp]", "start[cp] only", "prepare only (no checkpo
 def order_params(tier):
     shp = SHAPES_Q if tier == "quick" else SHAPES_T
     n = 4 if tier == "quick" else 5
-    S = 3 if tier == "quick" else 5
+    S = 3 if tier == "quick" else 4
     return [P("shape", 0, len(shp) - 1), P("inherit", 0, 1)] + [P(f"v{i}", 0, 2) for i in range(n)] + [
         P(f"s{i}", 0, 5) for i in range(S)
     ]
@@ -25,9 +25,11 @@ def order_params(tier):
 @guard
 def order_fn(a, tier):
     shp = SHAPES_Q if tier == "quick" else SHAPES_T
-    S = 3 if tier == "quick" else 5
+    S = 3 if tier == "quick" else 4
     parents = shp[pick(a["shape"], len(shp))]
     n = len(parents)
+    if n == 5:
+        S = 2  # thorough: five components with a shorter arbitrary prefix
     inherit = bool(pick(a["inherit"], 2))
     variants = [pick(a[f"v{i}"], 3) for i in range(n)]
     tape = Tape([a[f"s{i}"] for i in range(S)])
@@ -113,7 +115,7 @@ ORDER = Harness(
     cube=lambda tier: 4 if tier == "quick" else 5,
     title="phase ordering over all tree shapes, method presence patterns and schedule prefixes",
     bound_text=lambda tier: f"all rooted trees with 2..{4 if tier == 'quick' else 5} components ({len(SHAPES_Q) if tier == 'quick' else len(SHAPES_T)} shapes) x per component "
-    f"{VARIANTS} x methods defined directly / inherited from an intermediate base class; first {3 if tier == 'quick' else 5} scheduling decisions arbitrary (any of up to 6 runnable tasks)",
+    f"{VARIANTS} x methods defined directly / inherited from an intermediate base class; first {3 if tier == 'quick' else 4} scheduling decisions arbitrary (any of up to 6 runnable tasks; 2 decisions for the 24 five-component shapes)",
     oracle="all constructors (once each) before any prepare/start; each defined method exactly once; prepare_end(parent) before any activity of a child; "
     "start_begin(x) after the last activity of every descendant; start_component returns the root instance after its start(); every published "
     "resource visible in the caller's context; all teardown callbacks run, LIFO, only when the caller's context is left; no task left",
@@ -126,7 +128,7 @@ PERMS = list(permutations(range(3)))
 
 
 def wait_params(tier):
-    S = 3 if tier == "quick" else 6
+    S = 3 if tier == "quick" else 4
     return [P("perm", 0, 5), P("e10", 0, 1), P("e20", 0, 1), P("e21", 0, 1), P("wp", 0, 1), P("pp", 0, 1), P("cpb", 0, 1)] + [
         P(f"s{i}", 0, 5) for i in range(S)
     ]
@@ -134,7 +136,7 @@ def wait_params(tier):
 
 @guard
 def wait_fn(a, tier):
-    S = 3 if tier == "quick" else 6
+    S = 3 if tier == "quick" else 4
     perm = PERMS[pick(a["perm"], 6)]
     edges = []  # (waiter rank, publisher rank)
     if pick(a["e10"], 2):
@@ -199,7 +201,7 @@ WAIT = Harness(
     title="every acyclic pattern of three siblings waiting for each other's resources completes",
     bound_text=lambda tier: "root + 3 siblings; any total order of the siblings x any subset of the 3 'later waits for earlier' edges x waits in "
     "prepare/start x publication in prepare/start x checkpoint before publishing; plus child<-parent.prepare and parent.start<-child; "
-    f"first {3 if tier == 'quick' else 6} scheduling decisions arbitrary (any of up to 6 runnable tasks)",
+    f"first {3 if tier == 'quick' else 4} scheduling decisions arbitrary (any of up to 6 runnable tasks)",
     oracle="start_component returns (no TimeoutError, no deadlock); every wait returns the published object",
     outside="more than 3 siblings, deeper wait chains across levels, cyclic waits (documented deadlock)",
     stubs=STUBS_COMMON,
